@@ -118,58 +118,52 @@ Proof. exact step_token. Qed.
 
 (* ---- non-vacuity: concrete collections (ids: 10 puppet/minter, 11 collection, 12 creator,
    15 alice, 16 bob, 14 minter2) *)
-Definition ex_info : cinfo :=
-  mkInfo 12 (mkTxt 1 12 false) (mkTxt 2 29 true) None (Some false) None (Some (mkRoy 18 50000000000000000)).
-Definition ex_boot (ct : ctype) : state :=
-  match instantiate ct 1000 true [] 10 ex_info with Ok s => s | Err => mkSt [] 0 [] (mkOwn None None None) ex_info false 0 false false end.
-Definition at_ (t who : N) : env := mkEnv t who [].
-
 Example C09_ex_duplicate_and_foreign_mint :
-  let s1 := run Base 11 (ex_boot Base) [(at_ 1001 10, OMint 1 15 (Some 1))] in
+  let s1 := run Base 11 (c09_ex_boot Base) [(c09_at 1001 10, OMint 1 15 (Some 1))] in
   tfind 1 (tokens s1) = Some (mkTok 15 [] (Some 1)) /\ token_count s1 = 1 /\
-  step Base 11 (at_ 1002 10) (OMint 1 16 None) s1 = Err /\
-  step Base 11 (at_ 1002 12) (OMint 2 12 None) s1 = Err.
+  step Base 11 (c09_at 1002 10) (OMint 1 16 None) s1 = Err /\
+  step Base 11 (c09_at 1002 12) (OMint 2 12 None) s1 = Err.
 Proof. vm_compute. repeat split; reflexivity. Qed.
 
 Example C09_ex_handover_then_mint :
-  let s := run Onchain 11 (ex_boot Onchain)
-             [(at_ 1001 10, OOwnTransfer 14 (Some (ExAt 1010))); (at_ 1009 14, OOwnAccept)] in
+  let s := run Onchain 11 (c09_ex_boot Onchain)
+             [(c09_at 1001 10, OOwnTransfer 14 (Some (ExAt 1010))); (c09_at 1009 14, OOwnAccept)] in
   o_owner (own s) = Some 14 /\
-  step Onchain 11 (at_ 1011 10) (OMint 1 15 None) s = Err /\
-  is_ok (step Onchain 11 (at_ 1011 14) (OMint 1 15 None) s) = true /\
+  step Onchain 11 (c09_at 1011 10) (OMint 1 15 None) s = Err /\
+  is_ok (step Onchain 11 (c09_at 1011 14) (OMint 1 15 None) s) = true /\
   (* accepting at the expiry instant is too late *)
-  o_owner (own (run Onchain 11 (ex_boot Onchain)
-             [(at_ 1001 10, OOwnTransfer 14 (Some (ExAt 1010))); (at_ 1010 14, OOwnAccept)])) = Some 10.
+  o_owner (own (run Onchain 11 (c09_ex_boot Onchain)
+             [(c09_at 1001 10, OOwnTransfer 14 (Some (ExAt 1010))); (c09_at 1010 14, OOwnAccept)])) = Some 10.
 Proof. vm_compute. repeat split; reflexivity. Qed.
 
 Example C09_ex_frozen :
-  let s := run NT 11 (ex_boot NT) [(at_ 1001 12, OFreezeInfo)] in
+  let s := run NT 11 (c09_ex_boot NT) [(c09_at 1001 12, OFreezeInfo)] in
   frozen s = true /\
-  step NT 11 (at_ 1002 12) (OUpdateInfo (mkUpd (Some (mkTxt 5 3 false)) None None None None None)) s = Err /\
+  step NT 11 (c09_at 1002 12) (OUpdateInfo (mkUpd (Some (mkTxt 5 3 false)) None None None None None)) s = Err /\
   (* before the freeze the same update is accepted *)
-  is_ok (step NT 11 (at_ 1002 12) (OUpdateInfo (mkUpd (Some (mkTxt 5 3 false)) None None None None None)) (ex_boot NT)) = true /\
+  is_ok (step NT 11 (c09_at 1002 12) (OUpdateInfo (mkUpd (Some (mkTxt 5 3 false)) None None None None None)) (c09_ex_boot NT)) = true /\
   (* the minter can still move start_trading_time on a frozen sg721-base collection *)
-  ci_start_trading (info (run Base 11 (ex_boot Base) [(at_ 1001 12, OFreezeInfo); (at_ 1002 10, OStartTrading (Some 7))])) = Some 7.
+  ci_start_trading (info (run Base 11 (c09_ex_boot Base) [(c09_at 1001 12, OFreezeInfo); (c09_at 1002 10, OStartTrading (Some 7))])) = Some 7.
 Proof. vm_compute. repeat split; reflexivity. Qed.
 
 Example C09_ex_metadata :
-  let s1 := run Updatable 11 (ex_boot Updatable)
-              [(at_ 1001 10, OMint 1 15 (Some 1)); (at_ 1002 12, OUpdateTokenMd 1 (Some 2))] in
+  let s1 := run Updatable 11 (c09_ex_boot Updatable)
+              [(c09_at 1001 10, OMint 1 15 (Some 1)); (c09_at 1002 12, OUpdateTokenMd 1 (Some 2))] in
   tfind 1 (tokens s1) = Some (mkTok 15 [] (Some 2)) /\
-  step Updatable 11 (at_ 1003 15) (OUpdateTokenMd 1 (Some 3)) s1 = Err /\
-  step Updatable 11 (at_ 1003 12) (OUpdateTokenMd 9 (Some 3)) s1 = Err /\
-  (let s2 := run Updatable 11 s1 [(at_ 1003 12, OFreezeTokenMd)] in
-   md_frozen s2 = true /\ step Updatable 11 (at_ 1004 12) (OUpdateTokenMd 1 (Some 3)) s2 = Err /\
-   alive_through Updatable 11 1 s2 [(at_ 1004 12, OUpdateTokenMd 1 (Some 3)); (at_ 1005 15, OTransfer 16 1)]).
+  step Updatable 11 (c09_at 1003 15) (OUpdateTokenMd 1 (Some 3)) s1 = Err /\
+  step Updatable 11 (c09_at 1003 12) (OUpdateTokenMd 9 (Some 3)) s1 = Err /\
+  (let s2 := run Updatable 11 s1 [(c09_at 1003 12, OFreezeTokenMd)] in
+   md_frozen s2 = true /\ step Updatable 11 (c09_at 1004 12) (OUpdateTokenMd 1 (Some 3)) s2 = Err /\
+   alive_through Updatable 11 1 s2 [(c09_at 1004 12, OUpdateTokenMd 1 (Some 3)); (c09_at 1005 15, OTransfer 16 1)]).
 Proof. vm_compute. repeat split; try reflexivity; discriminate. Qed.
 
 Example C09_ex_nt :
-  let s1 := run NT 11 (ex_boot NT) [(at_ 1001 10, OMint 1 15 None)] in
-  step NT 11 (at_ 1002 15) (OTransfer 16 1) s1 = Err /\
-  step NT 11 (at_ 1002 15) (OSend 10 1 true) s1 = Err /\
-  step NT 11 (at_ 1002 15) (OApprove 16 1 None) s1 = Err /\
-  is_ok (step Base 11 (at_ 1002 15) (OTransfer 16 1) (run Base 11 (ex_boot Base) [(at_ 1001 10, OMint 1 15 None)])) = true /\
-  token_count (run NT 11 s1 [(at_ 1003 15, OBurn 1)]) = 0.
+  let s1 := run NT 11 (c09_ex_boot NT) [(c09_at 1001 10, OMint 1 15 None)] in
+  step NT 11 (c09_at 1002 15) (OTransfer 16 1) s1 = Err /\
+  step NT 11 (c09_at 1002 15) (OSend 10 1 true) s1 = Err /\
+  step NT 11 (c09_at 1002 15) (OApprove 16 1 None) s1 = Err /\
+  is_ok (step Base 11 (c09_at 1002 15) (OTransfer 16 1) (run Base 11 (c09_ex_boot Base) [(c09_at 1001 10, OMint 1 15 None)])) = true /\
+  token_count (run NT 11 s1 [(c09_at 1003 15, OBurn 1)]) = 0.
 Proof. vm_compute. repeat split; reflexivity. Qed.
 
 Print Assumptions C09_mint_ok.
